@@ -69,6 +69,21 @@ class G:
         r = self.r.random()
         if d <= 0 or r < 0.22:
             return "log(" + str(self.r.randint(1000, 9999)) + ", " + self.expr(vars_) + ");"
+        if r < 0.28 and vars_ and in_func and "closure-stmt" not in self.avoid:
+            # make some visible variables captured, then read / update them from both sides of the closure
+            g = self.fresh("g")
+            v = self.r.choice([x for x in vars_ if x[0] not in "iw"] or vars_)    # (not a loop counter: loops stay bounded)
+            op = self.r.choice(["+=", "-=", "*=", "=", "++", "--"]) if v[0] not in "iw" else "+="
+            upd = (v + op + ";") if op in ("++", "--") else (v + " " + op + " " + self.expr(vars_, 1) + ";")
+            where = self.r.random()
+            if where < 0.5 or self.loopd:
+                mk = "var %s = function () { return [%s, typeof %s]; };" % (g, self.expr(vars_, 1), v)
+            elif where < 0.75:
+                w = self.fresh("w")
+                mk = "var %s, %s = 0; while ((%s = function () { return [%s, typeof %s]; }), %s < 2) { %s++; }" % (g, w, g, self.expr(vars_, 1), v, w, w)
+            else:
+                mk = "var %s; switch ((%s = function () { return [%s, typeof %s]; }), 1) { case 1: break; }" % (g, g, self.expr(vars_, 1), v)
+            return "%s log(%d, %s()); %s log(%d, %s(), typeof %s, %s);" % (mk, self.r.randint(1000, 9999), g, upd, self.r.randint(1000, 9999), g, v, v)
         if r < 0.34:
             v = self.fresh("v")
             s = "var " + v + " = " + self.expr(vars_) + ";"
